@@ -10,15 +10,16 @@ namespace WuffsVerif.Flate.Cut
 open WuffsVerif.Gen.C16 WuffsVerif.Flate.Spec
 
 /-- What the tail of `doHuffman` does on a block that the spec decoder decodes completely (from output
-`out`, with `decodedLen = out.size`, to output `T` at bit `pE`). -/
-structure TailSim (hl hd : Huff) (minL minD : Nat) (c : Cutter) (out : Bytes) (pE : Nat) (T : Bytes)
+`out`, with `decodedLen + k = out.size` — `k` = length of a preset dictionary in front of the output, 0
+without one —, to output `T` at bit `pE`). -/
+structure TailSim (hl hd : Huff) (minL minD : Nat) (k : Nat) (c : Cutter) (out : Bytes) (pE : Nat) (T : Bytes)
     (r : Cutter × Option Err) : Prop where
   size : r.1.bits.bytes.size = c.bits.bytes.size
   max : r.1.maxEncodedLen = c.maxEncodedLen
-  nil : r.2 = none → r.1.bits.bytes = c.bits.bytes ∧ r.1.bits.pos = pE ∧ r.1.decodedLen = (T.size : Int) ∧
+  nil : r.2 = none → r.1.bits.bytes = c.bits.bytes ∧ r.1.bits.pos = pE ∧ r.1.decodedLen + (k : Int) = (T.size : Int) ∧
       pE ≤ 8 * c.maxEncodedLen ∧ r.1.bits.Inv
   prog : r.2 = some .someProgress → ∃ q o, Reach hl hd minL minD c.bits.bytes c.bits.pos out q o ∧
-      c.bits.pos < q ∧ r.1.decodedLen = (o.size : Int) ∧ q + c.endCodeNBits ≤ 8 * c.maxEncodedLen ∧
+      c.bits.pos < q ∧ r.1.decodedLen + (k : Int) = (o.size : Int) ∧ q + c.endCodeNBits ≤ 8 * c.maxEncodedLen ∧
       8 * r.1.bits.index - r.1.bits.nBits = q + c.endCodeNBits ∧ r.1.bits.nBits ≤ 8 * r.1.bits.index ∧
       r.1.bits.nBits ≤ 8 ∧
       ∀ i, bitAt r.1.bits.bytes i =
@@ -31,17 +32,20 @@ structure TailSim (hl hd : Huff) (minL minD : Nat) (c : Cutter) (out : Bytes) (p
 theorem huffTail_sim (c : Cutter) (hc : c.OK) (ll dl : Array Nat) (hl hd : Huff) (ctx : BlockCtx c ll dl hl hd)
     (minL minD fuelS pE : Nat) (out T : Bytes)
     (hspec : huffBlock hl hd minL minD c.bits.bytes none 0 fuelS c.bits.pos out = .next pE T)
-    (hcd : c.decodedLen = (out.size : Int)) (hT : (T.size : Int) < 2147483648) (hecn : c.endCodeNBits ≠ 0)
-    (hecn' : c.endCodeNBits = ll.getD 256 0) (isFirst : Bool) :
-    TailSim hl hd minL minD c out pE T (c.huffTail isFirst) := by
+    (k : Nat) (hcd : c.decodedLen + (k : Int) = (out.size : Int)) (hc0 : 0 ≤ c.decodedLen)
+    (hT : (T.size : Int) < 2147483648) (hecn : c.endCodeNBits ≠ 0) (hecn' : c.endCodeNBits = ll.getD 256 0) (isFirst : Bool) :
+    TailSim hl hd minL minD k c out pE T (c.huffTail isFirst) := by
   obtain ⟨k1, k2, _⟩ := huffTail_ok c isFirst hecn
-  have htr := huffLoop_tracks hl hd minL minD 0 ll dl fuelS (8 * c.bits.bytes.size + 2) c none (out.size : Int) out pE T
-    hc ctx hcd hecn' (by intro h; exact absurd rfl h) hspec (by omega) (by omega) (by omega)
-  have hpost := huffLoop_total ll dl ctx.szl ctx.szd (8 * c.bits.bytes.size + 2) c none (out.size : Int) hc ctx.gl ctx.gd
+  have hext := (huffBlock_cap hl hd minL minD c.bits.bytes 0 0 _ _ _ _ _ hspec).1
+  have hTo : out.size ≤ T.size := by
+    obtain ⟨x, hx⟩ := hext
+    rw [hx]; simp [Array.size_append]
+  have htr := huffLoop_tracks hl hd minL minD 0 ll dl fuelS (8 * c.bits.bytes.size + 2) c none c.decodedLen out pE T
+    hc ctx rfl hecn' (by intro h; exact absurd rfl h) hspec hc0 (by omega) (by omega)
+  have hpost := huffLoop_total ll dl ctx.szl ctx.szd (8 * c.bits.bytes.size + 2) c none c.decodedLen hc ctx.gl ctx.gd
     (by omega) (by intro i n h; simp at h)
   simp only [Cutter.huffTail] at k1 k2 ⊢
-  rw [hcd] at k1 k2 ⊢
-  generalize Cutter.huffLoop (8 * c.bits.bytes.size + 2) c none (out.size : Int) = res at htr hpost k1 k2
+  generalize Cutter.huffLoop (8 * c.bits.bytes.size + 2) c none c.decodedLen = res at htr hpost k1 k2
   obtain ⟨c1, cp, r⟩ := res
   obtain ⟨t1, t2, t3, t4, _⟩ := htr
   obtain ⟨m1, m2, m3, m4, m5, m6, np, nf, hcp, hret⟩ := hpost
@@ -53,8 +57,8 @@ theorem huffTail_sim (c : Cutter) (hc : c.OK) (ll dl : Array Nat) (hl hd : Huff)
     | none =>
       obtain ⟨a1, a2, a3⟩ := t2 rfl
       obtain ⟨i1, _⟩ := hret rfl
-      have a2 : c1.decodedLen + (out.size : Int) = (out.size : Int) + (T.size : Int) := a2
-      refine ⟨k2, k1, fun _ => ⟨t1, a1, by show c1.decodedLen = (T.size : Int); omega, a3, i1⟩, by intro h; simp at h, by intro h; simp at h,
+      have a2 : c1.decodedLen + (out.size : Int) = c.decodedLen + (T.size : Int) := a2
+      refine ⟨k2, k1, fun _ => ⟨t1, a1, by show c1.decodedLen + (k : Int) = (T.size : Int); omega, a3, i1⟩, by intro h; simp at h, by intro h; simp at h,
         by intro h; simp at h, by intro e h; simp at h⟩
     | some e =>
       obtain ⟨this, hdl⟩ := t4 e rfl
@@ -106,8 +110,8 @@ theorem huffTail_sim (c : Cutter) (hc : c.OK) (ll dl : Array Nat) (hl hd : Huff)
               simp only [Bitstream.unread]; omega
             rw [hP] at w2 w5
             simp only [Bitstream.unread] at w5
-            have a6 : c1.decodedLen + (out.size : Int) = (out.size : Int) + (o.size : Int) := a6
-            refine ⟨q, o, a4, a5, by show c1.decodedLen = (o.size : Int); omega, a7, by rw [← m2]; exact w2, w3, w4, ?_⟩
+            have a6 : c1.decodedLen + (out.size : Int) = c.decodedLen + (o.size : Int) := a6
+            refine ⟨q, o, a4, a5, by show c1.decodedLen + (k : Int) = (o.size : Int); omega, a7, by rw [← m2]; exact w2, w3, w4, ?_⟩
             intro i
             rw [w5 i, m2, m3, m6]
 
